@@ -110,7 +110,7 @@ impl Step {
         })
     }
     pub fn terminal(&self) -> bool {
-        !matches!(self, Step::AndModify(_) | Step::AndReplace(..) | Step::OccInsert(_) | Step::OccGetMut(0, _) | Step::OccReplaceWith(..))
+        !matches!(self, Step::AndModify(_) | Step::AndReplace(..) | Step::Insert(..) | Step::OccInsert(_) | Step::OccGetMut(0, _) | Step::OccReplaceWith(..))
     }
 }
 
@@ -1526,6 +1526,22 @@ impl World {
                 // handled by the fault-injection slices
             } else if !documented {
                 self.fail(&["C01", "C05", "C17"], format!("undocumented panic: {p}"));
+                // … and evidence against the property that governs the call it happened in
+                let own: &[&str] = match op {
+                    Op::Entry { .. } => &["C12"],
+                    Op::Retain { .. } | Op::DrainFilter { .. } => &["C09"],
+                    Op::Iter { .. } | Op::IterMut { .. } | Op::Drain { .. } | Op::IntoIter { .. } | Op::Dump => &["C08"],
+                    Op::Clone { .. } | Op::CloneFrom { .. } => &["C11"],
+                    Op::Eq { .. } | Op::Get { .. } => &["C14"],
+                    Op::Drop | Op::Clear => &["C06"],
+                    Op::FInsert { .. } | Op::FRetain { .. } | Op::FReplace { .. } | Op::FDrainFilter { .. } => &["C07"],
+                    Op::FillProbe { .. } => &["C04"],
+                    Op::Insert { .. } | Op::Extend { .. } | Op::GetMut { .. } | Op::Remove { .. } => &["C02", "C03"],
+                    _ => &[],
+                };
+                if !own.is_empty() {
+                    self.fail(own, format!("undocumented panic in {}: {p}", fmt_op(0, op).split(' ').next().unwrap_or("?")));
+                }
                 if matches!(op, Op::Reserve { .. } | Op::TryReserve { .. } | Op::Shrink { .. } | Op::ShrinkToFit | Op::New { .. }) {
                     self.fail(&["C10"], format!("capacity-management call panicked: {p}"));
                 }
@@ -1833,8 +1849,8 @@ impl World {
                             }
                             seen = Some((o.get().v, o.get().id));
                             expect_now = seen;
-                            drop(o);
-                            break;
+                            // the occupied handle `Entry::insert` returns is a handle like any other: the chain goes on with it
+                            e = Entry::Occupied(o);
                         }
                         (Step::OrInsert(f, _, a), en) => {
                             let vacant = matches!(en, Entry::Vacant(_));
@@ -2006,7 +2022,7 @@ impl World {
                             o.get_mut().v += a;
                             seen = Some((o.get().v, o.get().id));
                             expect_now = seen;
-                            break;
+                            e = RawEntryMut::Occupied(o);
                         }
                         (Step::OrInsert(f, _, a), en) => {
                             let vacant = matches!(en, RawEntryMut::Vacant(_));
